@@ -1,7 +1,12 @@
 ----------------------------- MODULE MCHandshake -----------------------------
 EXTENDS Handshake, Json
 MCDelays == {0, 2, 7}
-\* one line per scenario with its predicted end
-EmitScenario == Final => PrintT(<< "HS", ToJson([ dHello |-> dHello, dFin |-> dFin, T |-> T, never |-> Never,
-                                                  phase |-> phase, droppedAt |-> droppedAt, servedAt |-> servedAt ]) >>)
+\* The specification's clock starts when the connection is accepted: how long the listener had been waiting in
+\* accept() before is not part of any state, so it cannot influence the outcome.  The harness realises that
+\* dimension: every scenario is also run after the listener has been idle for `gap` ticks (longer than T).
+MCGaps == {0, 7}
+\* one line per scenario (and listener idle time before it) with its predicted end
+EmitScenario == Final => \A g \in MCGaps :
+                  PrintT(<< "HS", ToJson([ dHello |-> dHello, dFin |-> dFin, T |-> T, never |-> Never, gap |-> g,
+                                           phase |-> phase, droppedAt |-> droppedAt, servedAt |-> servedAt ]) >>)
 =============================================================================
